@@ -370,8 +370,19 @@ class Ctx:
                 broken.append(dict(kind="proof", what="%s: %s" % (p["file"], p["error"])))
         if forbidden:
             broken.append(dict(kind="proof", what="forbidden constructs in the development: %s" % forbidden[:10]))
+        known_from_ties = []
         for t in self.ties:
             for d in t.get("disagreements", []):
+                kid = None
+                if classify is not None:
+                    try:
+                        kid = classify(dict(d, tie=t["name"]))
+                    except Exception:
+                        kid = None
+                if kid is not None and kid in known_ids:
+                    # the model-vs-implementation difference is an instance of a recorded known finding
+                    known_from_ties.append(kid)
+                    continue
                 broken.append(dict(kind="correspondence", what="%s: %s" % (t["name"], d.get("what")), detail=d))
         failures = []
         for o in self.oracles:
@@ -396,6 +407,10 @@ class Ctx:
         lines = []
         violations = 0
         seen_known = set()
+        for kid in known_from_ties:
+            if kid not in seen_known:
+                seen_known.add(kid)
+                lines.append("KNOWN-FINDING: property=%s %s" % (self.prop, known_ids[kid]["what"]))
         REPLAY.mkdir(exist_ok=True)
         unknown_failures = []
         for f in failures:
